@@ -300,4 +300,18 @@ PROPS = {
              "bound": "missing include file, directly or nested, quoted or unquoted", "timeout": 200, "extra_modules": ["tokenizer"]},
         ],
     },
+    "C06": {
+        "files": ["a2lfile/src/parser.rs", "a2lfile/src/lib.rs", "a2lfile/src/specification.rs"],
+        "trusted": T_STD,
+        "assumptions": ["one document per fault kind (11 kinds: none, identifier for string, unknown keyword, multiplicity, block form, unknown enum value, missing parameter, element newer than file version, older version without fault, identifier starting with a digit, additional tokens); no IF_DATA",
+                        "the ~30 error_or_log call sites inside generated element parsers are reached only as far as the template exercises them"],
+        "jobs": [
+            {"engine": "E2", "module": "lib", "harness": "h_strict_vs_nonstrict", "functions": ["load_from_string", "parser::ParserState::parse_file", "parser::ParserState::error_or_log", "parser::ParserState::get_string", "parser::ParserState::get_identifier", "parser::ParserState::handle_multiplicity_error", "parser::ParserState::check_block_version_lower", "parser::ParserState::handle_unknown_taggedstruct_tag", "specification::Measurement::parse"],
+             "bound": "11 documents, each loaded with strict = true and strict = false", "timeout": 300, "extra_modules": ["tokenizer"], "validate": 11},
+        ] + [
+            {"engine": "E2", "module": "parser", "harness": h, "functions": ["parser::ParserState::handle_unknown_taggedstruct_tag", "parser::ParserState::error_or_log"],
+             "bound": "unknown tag + every 1..3-lexeme soup, strictness symbolic: strict never accepts", "timeout": 300, "extra_modules": ["tokenizer"]}
+            for h in ("h_unknown_soup_1", "h_unknown_soup_2", "h_unknown_soup_3")
+        ],
+    },
 }
